@@ -91,6 +91,54 @@ fn message_cases() -> Vec<(String, Vec<Vec<Vec<u8>>>)> {
     v
 }
 
+
+/// fast-forward eligibility (ELIGIBLE_FOR_FF) across spends: a spend of an odd-amount coin that re-creates (its puzzle hash,
+/// its amount) keeps the flag unless one of its outputs is spent in the same bundle or another spend asserts it concurrently -
+/// whatever the order of the spends and whatever other spends sit in between
+fn ff_flag_cases() -> Vec<(String, Vec<(Vec<u8>, u64, Vec<Vec<u8>>)>, Vec<(usize, bool)>)> {
+    // (name, spends as (parent id, amount, conditions), expectations as (spend index, FF flag expected))
+    let ph = clvm_utils::tree_hash_atom(&[1u8]).to_bytes();
+    let recreate = |amount: u64| cond(&[vec![51], ph.to_vec(), { let b = amount.to_be_bytes(); let mut i = 0; while b[i] == 0 { i += 1; } let mut o = vec![]; if b[i] & 0x80 != 0 { o.push(0); } o.extend_from_slice(&b[i..]); o }]);
+    let parent = |p: u8| vec![p; 32];
+    let singleton = (parent(1), 1001u64, vec![recreate(1001)]);
+    let child_parent = Coin::new([1; 32].into(), ph.into(), 1001).coin_id().to_vec();
+    let child = (child_parent.clone(), 1001u64, vec![recreate(1001)]);
+    let plain = (parent(9), 1000u64, vec![cond(&[vec![51], vec![9u8; 32], vec![0x03, 0xe8]])]);
+    let plain2 = (parent(8), 1000u64, vec![cond(&[vec![51], vec![8u8; 32], vec![0x03, 0xe8]])]);
+    let asserting = (parent(7), 1000u64, vec![cond(&[vec![51], vec![7u8; 32], vec![0x03, 0xe8]]), cond(&[vec![64], Coin::new([1; 32].into(), ph.into(), 1001).coin_id().to_vec()])]);
+    let mut v = vec![];
+    v.push(("ff/alone".to_string(), vec![singleton.clone()], vec![(0, true)]));
+    v.push(("ff/with-unrelated".to_string(), vec![plain.clone(), singleton.clone()], vec![(0, false), (1, true)]));
+    v.push(("ff/unrelated-after".to_string(), vec![singleton.clone(), plain.clone()], vec![(0, true), (1, false)]));
+    // its output is spent in the same bundle: the parent is not eligible; the last of the chain is
+    v.push(("ff/parent-child".to_string(), vec![singleton.clone(), child.clone()], vec![(0, false), (1, true)]));
+    v.push(("ff/child-parent".to_string(), vec![child.clone(), singleton.clone()], vec![(0, true), (1, false)]));
+    v.push(("ff/unrelated-parent-child".to_string(), vec![plain.clone(), singleton.clone(), child.clone()], vec![(0, false), (1, false), (2, true)]));
+    v.push(("ff/unrelated-child-parent".to_string(), vec![plain.clone(), child.clone(), singleton.clone()], vec![(0, false), (1, true), (2, false)]));
+    v.push(("ff/parent-unrelated-child".to_string(), vec![singleton.clone(), plain.clone(), child.clone()], vec![(0, false), (1, false), (2, true)]));
+    v.push(("ff/two-unrelated-parent-child".to_string(), vec![plain.clone(), plain2.clone(), singleton.clone(), child.clone()], vec![(2, false), (3, true)]));
+    // asserted concurrently by another spend
+    v.push(("ff/asserted-concurrently".to_string(), vec![singleton.clone(), asserting.clone()], vec![(0, false)]));
+    v.push(("ff/asserted-concurrently-first".to_string(), vec![asserting.clone(), singleton.clone()], vec![(1, false)]));
+    v.push(("ff/unrelated-asserted-concurrently".to_string(), vec![plain.clone(), asserting, singleton], vec![(2, false)]));
+    v
+}
+
+fn run_coins(spends: &[(Vec<u8>, u64, Vec<Vec<u8>>)]) -> Result<Vec<u32>, String> {
+    let puzzle = [1u8];
+    let ph = clvm_utils::tree_hash_atom(&puzzle).to_bytes();
+    let css: Vec<CoinSpend> = spends.iter().map(|(par, am, conds)|
+        CoinSpend::new(Coin::new(<[u8; 32]>::try_from(par.as_slice()).unwrap().into(), ph.into(), *am), Program::new(puzzle.as_slice().into()), list(conds).into())).collect();
+    let ids: Vec<[u8; 32]> = css.iter().map(|c| c.coin.coin_id().into()).collect();
+    let b = SpendBundle::new(css, Signature::default());
+    let mut a = make_allocator(ConsensusFlags::LIMIT_HEAP);
+    let flags = MEMPOOL_MODE | ConsensusFlags::DONT_VALIDATE_SIGNATURE;
+    match run_spendbundle(&mut a, &b, TEST_CONSTANTS.max_block_cost_clvm, flags, &TEST_CONSTANTS) {
+        Ok((c, _)) => Ok(ids.iter().map(|id| c.spends.iter().find(|s| s.coin_id.as_ref().as_ref() == &id[..]).expect("spend").flags).collect()),
+        Err(e) => Err(format!("{e:?}")),
+    }
+}
+
 pub fn dedup_ground() -> EvalResult {
     let mut res = EvalResult { obligations: 0, discharged: 0, failures: vec![], samples: vec![], exhaustive: true };
     let mut fail = |res: &mut EvalResult, id: String, msg: String| {
@@ -127,6 +175,17 @@ pub fn dedup_ground() -> EvalResult {
                 let s = per[0].0 & ELIGIBLE_FOR_DEDUP != 0; let r = per[1].0 & ELIGIBLE_FOR_DEDUP != 0;
                 if s || r { fail(&mut res, format!("{name}/only-if"), format!("case {name}: dedup-eligible sender = {s}, receiver = {r}; a spend that emits a message condition is never dedup-eligible")); }
                 else { res.discharged += 1; }
+            }
+        }
+    }
+    for (name, spends, expect) in ff_flag_cases() {
+        res.obligations += 1;
+        match run_coins(&spends) {
+            Err(e) => fail(&mut res, format!("{name}/accepted"), format!("case {name}: the bundle is rejected ({e}); every case is a valid bundle")),
+            Ok(flags) => {
+                let bad: Vec<String> = expect.iter().filter(|(i, want)| ((flags[*i] & chia_consensus::conditions::ELIGIBLE_FOR_FF) != 0) != *want)
+                    .map(|(i, want)| format!("spend #{i}: flag = {}, the rule says {want}", !*want)).collect();
+                if bad.is_empty() { res.discharged += 1; } else { fail(&mut res, format!("{name}/flag"), format!("case {name}: fast-forward eligibility: {}", bad.join("; "))); }
             }
         }
     }
